@@ -158,6 +158,9 @@ class MTypeBool(MTypeBase):
 
     @classmethod
     def new_node(cls, value: T.Optional[str] = None) -> BaseNode:
+        if isinstance(value, str) and value.lower() == 'false':
+            # the command line gives every value as a string
+            value = None
         return BooleanNode(Token('', '', 0, 0, 0, None, bool(value)))
 
     @classmethod
